@@ -1,11 +1,15 @@
 package url
 
 import (
+	"bufio"
+	"bytes"
 	"encoding/hex"
 	"fmt"
 	neturl "net/url"
+	"os"
 	"strconv"
 	"strings"
+	"time"
 
 	"github.com/pion/sdp/v3"
 
@@ -252,8 +256,113 @@ var controlStyles = []string{
 	"rtsp://u:p@cam/stream/trackID=3", "rtsp://", "rtsp://[::1/x", "rtsp://cam/%zz", "http://cam/x", "RTSP://cam/x", "%zz", "a b", "a#b", "\x7f", "trackID=%41",
 }
 
-// pureURLOps adds, for one URL text, the ops every helper is exercised with.
+// guarded runs one case of real code under corr's watchdog: a panic becomes the violation `url-panic`
+// with the case input as replay and the run goes on.  Reports whether fn returned normally.
+func guarded(c *corr.Ctx, input any, fn func()) bool {
+	ok := false
+	c.Guard(prop, "url", input, 60*time.Second, func() {
+		fn()
+		ok = true
+	})
+	return ok
+}
+
+// errSkipCase is panicked by a pre-flight check that has already recorded its violation.
+var errSkipCase = fmt.Errorf("skip case")
+
+// guardedSkip is guarded, except that a panic(errSkipCase) only ends the case.
+func guardedSkip(c *corr.Ctx, input any, fn func()) bool {
+	ok, skipped := false, false
+	c.Guard(prop, "url", input, 60*time.Second, func() {
+		defer func() {
+			if r := recover(); r != nil {
+				if r == any(errSkipCase) {
+					skipped = true
+					return
+				}
+				panic(r)
+			}
+		}()
+		fn()
+		ok = true
+	})
+	return ok && !skipped
+}
+
+// circuit breaker: a library that cuts requests short or stops answering makes every end-to-end case wait for
+// its time-outs; after a few such cases the remaining end-to-end cases are skipped (the run must end).
+var timeoutCases int
+
+func noteTimeout(err string) {
+	if strings.Contains(err, "timeout") || strings.Contains(err, "timed out") || strings.Contains(err, "deadline") || strings.Contains(err, "no second PLAY") {
+		timeoutCases++
+		if os.Getenv("VERIF_DEBUG") != "" {
+			fmt.Fprintln(os.Stderr, "timeout-looking:", err)
+		}
+	}
+}
+
+func tooManyTimeouts() bool { return timeoutCases >= 6 }
+
+// checkMarshal: the request written is the request the server reads.  MarshalSize must be the number of
+// bytes MarshalTo writes (a short buffer panics or cuts the request), and the server-side parser must read
+// back the same method, URL, headers and body.
+func checkMarshal(c *corr.Ctx, s string, u *base.URL) {
+	viol := func(key, detail string) {
+		c.Violate(corr.Violation{Property: prop, Clause: "the request the server reads is the request the client wrote", Key: key, Where: "pkg/base Request", Input: map[string]any{"text": s}, Detail: detail})
+	}
+	for i := 0; i < len(u.Host); i++ {
+		if u.Host[i] >= 0x80 {
+			// net/url accepts a raw non-ASCII byte in a host / zone but not its escaped form
+			c.Dist("marshal-skipped-non-ascii-host")
+			return
+		}
+	}
+	if strings.ContainsAny(u.RawQuery, " ") {
+		// net/url keeps a raw space in the query as it is: such text is not a URL a request line can carry
+		c.Dist("marshal-skipped-raw-space")
+		return
+	}
+	for _, m := range []base.Method{base.Describe, base.Setup, base.Announce} {
+		req := base.Request{Method: m, URL: u, Header: base.Header{"CSeq": base.HeaderValue{"7"}, "User-Agent": base.HeaderValue{"verif"}}}
+		if m == base.Announce {
+			req.Header["Content-Type"] = base.HeaderValue{"application/sdp"}
+			req.Body = []byte("v=0\r\n")
+		}
+		size := req.MarshalSize()
+		buf := make([]byte, size+64)
+		n, err := req.MarshalTo(buf)
+		if err != nil {
+			viol("pure-marshal-error", fmt.Sprintf("%s: MarshalTo: %v", s, err))
+			continue
+		}
+		if n != size {
+			viol("pure-marshal-size", fmt.Sprintf("%s: %s MarshalSize() = %d, MarshalTo wrote %d bytes", s, m, size, n))
+		}
+		out, err := req.Marshal()
+		if err != nil || !bytes.Equal(out, buf[:n]) {
+			viol("pure-marshal-size", fmt.Sprintf("%s: %s Marshal() returned %d bytes (err %v), MarshalTo wrote %d", s, m, len(out), err, n))
+			continue
+		}
+		var back base.Request
+		if err = back.Unmarshal(bufio.NewReader(bytes.NewReader(out))); err != nil {
+			viol("pure-marshal-readback", fmt.Sprintf("%s: the server-side parser rejects the %s request the client wrote: %v", s, m, err))
+			continue
+		}
+		want := u.CloneWithoutCredentials()
+		if back.Method != m || back.URL == nil || back.URL.Path != want.Path || back.URL.RawQuery != want.RawQuery || back.URL.Host != want.Host || back.URL.User != nil ||
+			!bytes.Equal(back.Body, req.Body) || fmt.Sprint(back.Header["CSeq"]) != "[7]" {
+			viol("pure-marshal-readback", fmt.Sprintf("%s: %s read back as method=%s url=%v body=%q header=%v", s, m, back.Method, back.URL, back.Body, back.Header))
+		}
+	}
+}
+
+// pureURLOps adds, for one URL text, the ops every helper is exercised with (under the watchdog).
 func pureURLOps(c *corr.Ctx, g gen, name, s string) {
+	guarded(c, map[string]any{"text": s}, func() { pureURLOpsInner(c, g, name, s) })
+}
+
+func pureURLOpsInner(c *corr.Ctx, g gen, name, s string) {
 	if unmodelled(s) {
 		c.Dist("pure-unmodelled-host")
 		return
@@ -270,12 +379,19 @@ func pureURLOps(c *corr.Ctx, g gen, name, s string) {
 	p.op("gpq 1 "+hx(s), implGPQ(s, true))
 	p.op("gpqt "+hx(s), implGPQT(s))
 	p.done(name, ps != "err")
+	if u, err := base.ParseURL(s); err == nil {
+		checkMarshal(c, s, u)
+	}
 }
 
 // checkPureRoundTrip is the property oracle at pure-function level: Content-Base / control
 // resolution on the client and path / query / track analysis on the server are mutually inverse,
 // and the request target never carries user-info.  Uses only the real functions.
 func checkPureRoundTrip(c *corr.Ctx, parts URLParts, n int) {
+	guarded(c, map[string]any{"pure": parts, "n": n}, func() { checkPureRoundTripInner(c, parts, n) })
+}
+
+func checkPureRoundTripInner(c *corr.Ctx, parts URLParts, n int) {
 	s := parts.String()
 	u, err := base.ParseURL(s)
 	if err != nil || !inQuantifier(u) {
